@@ -141,7 +141,18 @@ def run_unit(unit, canary=None, extra_args=(), seed=None, tag=''):
                 break
         if known and kind is None:
             continue
-        spans = [s for s in d.get('spans', []) if s.get('file_name', '').endswith(os.path.basename(path))]
+        spans = []
+        for s0 in d.get('spans', []):
+            s_ = s0
+            # walk macro expansions (panic!/unreachable!/format! expand into std files) back to the generated file
+            while s_ is not None and not s_.get('file_name', '').endswith(os.path.basename(path)):
+                s_ = (s_.get('expansion') or {}).get('span')
+            if s_ is not None:
+                if s_ is not s0:
+                    s_ = dict(s_)
+                    s_['is_primary'] = s0.get('is_primary')
+                    s_['label'] = s0.get('label')
+                spans.append(s_)
         giveup = bool(GIVEUP.search(msg))
         if not known and not giveup:
             # unknown error class: treat as front-end problem (unsupported construct etc.)
